@@ -251,7 +251,7 @@ func pick(c *reg.Ctx, l []rune) rune { return l[c.Rand.Intn(len(l))] }
 
 // profile: relative weights of letters, spaces, punctuation, wide, combining, newline
 type profile struct {
-	name           string
+	name               string
 	l, s, p, w, cb, nl int
 }
 
@@ -314,7 +314,7 @@ var smallWordPool = []abbr{{"gcm", "git checkout master"}, {"h", "hello"}, {"中
 
 func genAbbrs(c *reg.Ctx, pool []abbr) []abbr {
 	var out []abbr
-	if c.Rand.Intn(5) == 0 {
+	if c.Rand.Intn(12) == 0 {
 		return nil
 	}
 	perm := c.Rand.Perm(len(pool))
@@ -325,9 +325,9 @@ func genAbbrs(c *reg.Ctx, pool []abbr) []abbr {
 	return out
 }
 
-func key(r rune) event          { return event{Kind: "key", Rune: r} }
-func keym(r rune, m int) event  { return event{Kind: "key", Rune: r, Mod: m} }
-func cmd(n string) event        { return event{Kind: "cmd", Cmd: n} }
+func key(r rune) event           { return event{Kind: "key", Rune: r} }
+func keym(r rune, m int) event   { return event{Kind: "key", Rune: r, Mod: m} }
+func cmd(n string) event         { return event{Kind: "cmd", Cmd: n} }
 func setb(s string, d int) event { return event{Kind: "set", Text: s, Dot: d} }
 
 func typed(s string) []event {
@@ -338,21 +338,127 @@ func typed(s string) []event {
 	return out
 }
 
+// all configured abbreviations of the three kinds
+func allAbbrs(cfg config) []abbr {
+	var l []abbr
+	l = append(l, cfg.Simple...)
+	l = append(l, cfg.Simple...) // simple ones twice: they fire anywhere
+	l = append(l, cfg.SmallWord...)
+	l = append(l, cfg.Command...)
+	return l
+}
+
+// abbrText: text made of the configured abbreviations' own runes: a prefix, a full
+// abbreviation, a near miss (one rune replaced / doubled / dropped), sometimes followed by a trigger.
+func abbrText(c *reg.Ctx, cfg config) string {
+	l := allAbbrs(cfg)
+	if len(l) == 0 {
+		return string(pick(c, letters))
+	}
+	ar := []rune(l[c.Rand.Intn(len(l))].A)
+	var out []rune
+	switch c.Rand.Intn(5) {
+	case 0: // proper prefix
+		out = ar[:c.Rand.Intn(len(ar))]
+	case 1, 2: // the abbreviation
+		out = ar
+	case 3: // one rune replaced by a rune of another abbreviation (or doubled)
+		out = append([]rune{}, ar...)
+		other := []rune(l[c.Rand.Intn(len(l))].A)
+		i := c.Rand.Intn(len(out))
+		if c.Rand.Intn(3) == 0 {
+			out = append(out[:i+1], out[i:]...)
+		} else {
+			out[i] = other[c.Rand.Intn(len(other))]
+		}
+	default: // one rune dropped
+		i := c.Rand.Intn(len(ar))
+		out = append(append([]rune{}, ar[:i]...), ar[i+1:]...)
+	}
+	if c.Rand.Intn(4) == 0 {
+		out = append(out, pick(c, triggers))
+	}
+	return string(out)
+}
+
+// external commands for the planted pattern: moves, kills, transposes, vertical motions
+var externals = []string{"move-dot-left", "move-dot-left", "move-dot-right", "move-dot-sol", "move-dot-eol", "move-dot-left-word",
+	"move-dot-left-small-word", "move-dot-up", "move-dot-down", "kill-rune-left", "kill-rune-right", "kill-word-left",
+	"kill-small-word-left", "kill-line-left", "transpose-rune", "transpose-word", "transpose-small-word", "transpose-alnum-word"}
+
+func backspaceKey(c *reg.Ctx) event {
+	if c.Rand.Intn(4) == 0 {
+		return keym('H', int(ui.Ctrl))
+	}
+	return key(ui.Backspace)
+}
+
+// planted: [multi-byte context] · prefix of an abbreviation (+ extra runes) typed · external
+// command through MutateState · Backspace · rest of the abbreviation typed [· trigger], with the
+// external command before, after, or on both sides of the Backspace.
+func planted(c *reg.Ctx, cfg config) []event {
+	l := allAbbrs(cfg)
+	if len(l) == 0 {
+		return []event{backspaceKey(c)}
+	}
+	ar := []rune(l[c.Rand.Intn(len(l))].A)
+	var evs []event
+	switch c.Rand.Intn(4) {
+	case 0:
+		evs = append(evs, typed(string(pick(c, wides)))...)
+	case 1:
+		evs = append(evs, typed("é"+string(pick(c, spaces)))...)
+	}
+	cut := c.Rand.Intn(len(ar)) // the rest is never empty
+	evs = append(evs, typed(string(ar[:cut]))...)
+	extra := 1 + c.Rand.Intn(2) // the runes that Backspace will remove (or not)
+	for i := 0; i < extra; i++ {
+		if c.Rand.Intn(2) == 0 {
+			evs = append(evs, key(ar[c.Rand.Intn(len(ar))]))
+		} else {
+			evs = append(evs, key(pick(c, letters)))
+		}
+	}
+	ext := func() event { return cmd(externals[c.Rand.Intn(len(externals))]) }
+	switch c.Rand.Intn(6) {
+	case 0, 1, 2:
+		evs = append(evs, ext(), backspaceKey(c))
+	case 3:
+		evs = append(evs, backspaceKey(c), ext())
+	case 4:
+		evs = append(evs, ext(), backspaceKey(c), ext())
+	default:
+		evs = append(evs, ext(), ext(), backspaceKey(c))
+	}
+	if c.Rand.Intn(5) == 0 {
+		evs = append(evs, backspaceKey(c))
+	}
+	evs = append(evs, typed(string(ar[cut:]))...)
+	if c.Rand.Intn(2) == 0 {
+		evs = append(evs, key(pick(c, triggers)))
+	}
+	return evs
+}
+
 func genEvents(c *reg.Ctx, p profile, cfg config, n int) []event {
 	var evs []event
 	for len(evs) < n {
 		switch k := c.Rand.Intn(100); {
-		case k < 40:
+		case k < 28:
 			if c.Rand.Intn(6) == 0 { // vertical motions need several lines; give them their share
 				evs = append(evs, cmd([]string{"move-dot-up", "move-dot-down"}[c.Rand.Intn(2)]))
 			} else {
 				evs = append(evs, cmd(cmdNames[c.Rand.Intn(len(cmdNames))]))
 			}
-		case k < 62: // type a little text
+		case k < 36: // type a little text
 			evs = append(evs, typed(genText(c, p, 2))...)
-		case k < 66:
+		case k < 50: // type runes of the configured abbreviations: prefixes, full abbreviations, near misses
+			evs = append(evs, typed(abbrText(c, cfg))...)
+		case k < 62: // prefix typed, external move/edit, Backspace, rest typed (and variants)
+			evs = append(evs, planted(c, cfg)...)
+		case k < 67:
 			evs = append(evs, key(ui.Backspace))
-		case k < 68:
+		case k < 69:
 			evs = append(evs, keym('H', int(ui.Ctrl)))
 		case k < 70:
 			evs = append(evs, key('\n'))
@@ -488,6 +594,8 @@ func run(c *reg.Ctx) {
 	}
 	flush()
 	// 2. fixed histories around the special cases of the code
+	dnCfg := config{Simple: []abbr{{"dn", "/dev/null"}}, Command: []abbr{{"ls", "ls -l"}},
+		SmallWord: []abbr{{"gcm", "git checkout master"}}}
 	fixed := []struct {
 		init string
 		dot  int
@@ -504,6 +612,22 @@ func run(c *reg.Ctx) {
 		{"ab\n中文中\nabcdef", 15, noCfg, []event{cmd("move-dot-up"), cmd("move-dot-up"), cmd("move-dot-down"), cmd("move-dot-down")}},
 		{"a", 1, config{Quote: true}, []event{{Kind: "paste", Start: true}, key('i'), key('\''), key('s'), {Kind: "paste", Start: false},
 			{Kind: "paste", Start: false}, {Kind: "paste", Start: true}, key(7), key(0x110000), key(0x80), key(0x1f600), {Kind: "paste", Start: false}}},
+		// prefix typed · external move/edit · Backspace · rest typed, with dn -> /dev/null
+		{"", 0, dnCfg, []event{key('d'), key('x'), cmd("move-dot-left"), key(ui.Backspace), key('n')}},
+		{"世", 3, dnCfg, []event{key('d'), key('x'), cmd("move-dot-left"), cmd("move-dot-left"), key(ui.Backspace), key('n')}},
+		{"世", 3, dnCfg, []event{key('d'), key('x'), cmd("move-dot-left"), key(ui.Backspace), key('n'), key(' ')}},
+		{"", 0, dnCfg, []event{key('d'), key('x'), cmd("kill-rune-left"), key(ui.Backspace), key('n')}},
+		{"", 0, dnCfg, []event{key('d'), key('x'), cmd("transpose-rune"), keym('H', int(ui.Ctrl)), key('n')}},
+		{"a 世", 5, dnCfg, []event{key('d'), key('x'), cmd("transpose-word"), key(ui.Backspace), key('n')}},
+		{"世\nab", 6, dnCfg, []event{key('d'), key('x'), cmd("move-dot-up"), key(ui.Backspace), key('n')}},
+		{"ab\n世", 2, dnCfg, []event{key('d'), key('x'), cmd("move-dot-down"), key(ui.Backspace), key('n')}},
+		{"世界", 6, dnCfg, []event{key('d'), key('x'), cmd("kill-word-left"), key(ui.Backspace), key('n')}},
+		{"世", 3, dnCfg, []event{key('d'), key('x'), key(ui.Backspace), cmd("move-dot-left"), key('n')}},
+		{"世", 3, dnCfg, []event{key('d'), key('x'), cmd("move-dot-sol"), key(ui.Backspace), cmd("move-dot-eol"), key('n')}},
+		{"世", 3, dnCfg, []event{key('d'), key('x'), key('y'), cmd("move-dot-left"), key(ui.Backspace), key(ui.Backspace), key('n')}},
+		{"x 世", 5, dnCfg, []event{key(' '), key('g'), key('c'), key('x'), cmd("move-dot-left-word"), key(ui.Backspace), key('m'), key(' ')}},
+		{"世", 3, dnCfg, []event{key('d'), key('x'), {Kind: "paste", Start: true}, key('世'), {Kind: "paste", Start: false}, cmd("move-dot-left"), key(ui.Backspace), key('n')}},
+		{"世;", 4, dnCfg, []event{key('l'), key('x'), cmd("move-dot-left"), key(ui.Backspace), key('s'), key(' ')}},
 	}
 	for _, f := range fixed {
 		history(c, "fixed", f.init, f.dot, f.cfg, f.evs)
